@@ -31,7 +31,6 @@ def expectedSrc : Src :=
     negRows := [([.int], .int), ([.nat], .int), ([.fr], .fr), ([.g1], .g1), ([.g2], .g2)],
     negUsesResType := true }
 
-theorem flag382_eq : flag382 = 2 ^ 382 := by decide
 theorem q_lt_flag : q < flag382 := by decide
 theorem q_lt_pow : q < 256 ^ 48 := by decide
 theorem r_lt_pow : r < 256 ^ 32 := by decide
@@ -55,14 +54,14 @@ theorem field48 (v : Nat) (h : v < q) : ∃ bs, natToBE 48 v = some bs ∧ bs.le
 
 theorem slice2 (l1 l2 : Bytes) (h1 : l1.length = 48) :
     slice (l1 ++ l2) 0 (some 48) = l1 ∧ slice (l1 ++ l2) 48 none = l2 := by
-  simp (disch := omega) [slice, List.take_append, List.drop_append, h1, List.take_of_length_le, List.drop_eq_nil_of_le]
+  simp (disch := omega) [slice]
 
 theorem slice4 (l1 l2 l3 l4 : Bytes) (h1 : l1.length = 48) (h2 : l2.length = 48) (h3 : l3.length = 48) (h4 : l4.length = 48) :
     slice (l1 ++ (l2 ++ (l3 ++ l4))) 0 (some 48) = l1 ∧
     slice (l1 ++ (l2 ++ (l3 ++ l4))) 48 (some 96) = l2 ∧
     slice (l1 ++ (l2 ++ (l3 ++ l4))) 96 (some 144) = l3 ∧
     slice (l1 ++ (l2 ++ (l3 ++ l4))) 144 (some 192) = l4 := by
-  simp (disch := omega) [slice, List.take_append, List.drop_append, h1, h2, h3, h4, List.take_of_length_le,
+  simp (disch := omega) [slice, List.take_append, List.drop_append, h1, h2, h3, List.take_of_length_le,
     List.drop_eq_nil_of_le]
 
 /-- what the round trip needs from a layout with `n` coordinates -/
